@@ -340,8 +340,12 @@ func splatRoundTrip(c *run.Ctx) (res run.Result) {
 	// 4. polyform reads the reference encoding of the same cloud
 	readBack("splat.Read (reference-encoded file)", splatref.EncodeSplats(ss))
 
-	if c.Case < 40 && n > 0 && n <= 3 {
-		res.Sample = map[string]any{"splats": n, "first": ss[0], "pos_class": d.posClass, "scale_class": d.scaleClass}
+	if c.Case < 2 {
+		smp := map[string]any{"splats": n, "pos_class": d.posClass, "scale_class": d.scaleClass, "file_bytes": len(data)}
+		if n > 0 {
+			smp["splat_0"] = ss[0]
+		}
+		res.Sample = smp
 	}
 	return
 }
